@@ -56,7 +56,7 @@ type uStep struct {
 	Shape int      `json:"shape"`
 	Fail  bool     `json:"fail"`
 	Bare  bool     `json:"bare"`  // unbindl / unbindm: with a fresh StreamInfo that names the stream by its SSRC only
-	Stale bool     `json:"stale"` // rrtp: through the reader the stream had before it was unbound (a read that was in flight)
+	Stale bool     `json:"stale"` // rrtp / wrtp: through the reader / writer the stream had before it was unbound (a read that was in flight)
 	Kind  string   `json:"kind"`
 	Ms    int      `json:"ms"`
 	Nums  []uint16 `json:"nums"`
@@ -865,6 +865,7 @@ func uRunX(t *testing.T, sc *uScript, out *vfWriter, scribble, quiet bool, rb *u
 	local := map[uint32]*uBound{}
 	remote := map[uint32]*uBound{}
 	staleRemote := map[uint32]*uBound{} // readers of remote streams that have been unbound
+	staleLocal := map[uint32]*uBound{}  // writers of local streams that have been unbound
 	var smu sync.Mutex                  // protects the harness's own tables when steps run concurrently
 	getLocal := func(s uint32) *uBound {
 		smu.Lock()
@@ -963,6 +964,7 @@ func uRunX(t *testing.T, sc *uScript, out *vfWriter, scribble, quiet bool, rb *u
 			if b := getLocal(st.S); b != nil {
 				smu.Lock()
 				delete(local, st.S)
+				staleLocal[st.S] = b
 				smu.Unlock()
 				cp := *b.info // (an equal description at another address, never the object Bind was given)
 				info := &cp
@@ -1009,6 +1011,11 @@ func uRunX(t *testing.T, sc *uScript, out *vfWriter, scribble, quiet bool, rb *u
 			}
 		case "wrtp":
 			b := getLocal(st.S)
+			if b == nil && st.Stale { // a write that was in flight when the stream was removed goes through its old writer
+				smu.Lock()
+				b = staleLocal[st.S]
+				smu.Unlock()
+			}
 			if b == nil || b.writer == nil {
 				ev["skipped"] = true
 
